@@ -339,10 +339,19 @@ def p_greaterthan(p):
     head_tail.unary(p)
 
 
+def _field_expression(expr):
+    """the group that directly follows ``field:`` is a FieldGroup, also when it is boosted (``field:(a b)^2``)
+    """
+    if isinstance(expr, Group):
+        return group_to_fieldgroup(expr)
+    if isinstance(expr, Boost):
+        expr.expr = _field_expression(expr.expr)
+    return expr
+
+
 def p_field_search(p):
     '''unary_expression : TERM COLUMN unary_expression'''
-    if isinstance(p[3], Group):
-        p[3] = group_to_fieldgroup(p[3])
+    p[3] = _field_expression(p[3])
     # for field name we take p[1].value for it was captured as a word expression
     p[0] = SearchField(p[1].value, p[3])
     head_tail.search_field(p)
